@@ -7,5 +7,7 @@ INVARIANT Emit
 INVARIANT TypeOK
 INVARIANT RoundTrip
 INVARIANT VariedFollows
+INVARIANT StepsFollow
+INVARIANT StepsizesDomain
 PROPERTY VarylistLegal
 CHECK_DEADLOCK FALSE
